@@ -43,6 +43,15 @@ func vLinTransCase(c *vCtx, idx []int, ratio, ltLevel, ctLevel int, tag string) 
 	vAssertNoiseFree(r, vPhase(c, out), want, 42, tag+"-phase-is-the-sum-of-diagonal-times-rotated-input")
 	vAssert(out.Level() == lvl, tag+"-output-level")
 	vAssert(out.Scale.Uint64()%t == 15%t, tag+"-output-scale-is-the-product-of-scales")
+	// a receiver allocated above the level of the result is brought down to it
+	if lvl < params.MaxLevel() {
+		big := vAtomCiphertext(c, params.MaxLevel(), "junk2", 9)
+		vAssert(eval.Evaluate(ct, lt, big) == nil, tag+"-Evaluate-into-a-larger-receiver-succeeds")
+		vAssert(big.Level() == lvl, tag+"-larger-receiver-takes-the-output-level")
+		if big.Level() == lvl {
+			vAssertNoiseFree(r, vPhase(c, big), want, 42, tag+"-larger-receiver-holds-the-sum-of-diagonal-times-rotated-input")
+		}
+	}
 }
 
 func VerifH_C12_LinearTransformations() {
@@ -118,6 +127,18 @@ func vManyAndSequential(c *vCtx) {
 		vAssertNoiseFree(r, vPhase(c, outs[0]), vExpected(c, lt1, phase, level), 42, "EvaluateMany-first-output-is-the-first-transformation")
 		vAssertNoiseFree(r, vPhase(c, outs[1]), vExpected(c, lt2, phase, level), 42, "EvaluateMany-second-output-is-the-second-transformation")
 		vAssert(outs[0].Scale.Uint64()%t == 15%t && outs[1].Scale.Uint64()%t == 15%t, "EvaluateMany-output-scales")
+	}
+	// two baby-step giant-step transformations with different diagonal sets on one input (the second needs baby-step
+	// rotations the first did not produce)
+	lt3, d3 := vNewLT(c, []int{3, 5, 6}, 1) // baby steps 1, 2, 3 (N1 = 4) after lt1 (baby steps 0, 1, giant step 2)
+	vCheckEncodedDiagonals(c, lt3, d3, "many-lt3")
+	gks3 := c.Kgen.GenGaloisKeysNew(append(lt1.GaloisElements(params), lt3.GaloisElements(params)...), c.Sk)
+	eval3 := NewEvaluator(bgv.NewEvaluator(params, rlwe.NewMemEvaluationKeySet(nil, gks3...)))
+	outs3, err := eval3.EvaluateManyNew(ct, []LinearTransformation{lt1, lt3})
+	vAssert(err == nil && len(outs3) == 2, "EvaluateMany-two-BSGS-no-error")
+	if err == nil && len(outs3) == 2 {
+		vAssertNoiseFree(r, vPhase(c, outs3[0]), vExpected(c, lt1, phase, level), 42, "EvaluateMany-two-BSGS-first-output-is-the-first-transformation")
+		vAssertNoiseFree(r, vPhase(c, outs3[1]), vExpected(c, lt3, phase, level), 42, "EvaluateMany-two-BSGS-second-output-is-the-second-transformation")
 	}
 	// sequential = evaluate, rescale, evaluate, rescale (the documented circuit), word for word
 	seq := bgv.NewCiphertext(params, 1, level)
